@@ -1,4 +1,5 @@
 import HexModel.Core.Hexital
+import HexModel.Core.Input
 /-
 C19 – Reading state and converting input have no hidden side effects.
 
@@ -8,9 +9,12 @@ from the state to a value: it cannot change the state BY CONSTRUCTION, so for th
 burden is on the correspondence – the `access` / `hexital.access` components interleave every
 accessor with appends and compare all later snapshots, so a hidden side effect in the code shows
 up as a disagreement – and on the oracle (hx/oracles/facade.py, deep snapshots around each call).
-Input decoding (Candle / dict / list encodings) happens in the harness before the model sees
-candles; that all encodings give identical results and that the caller's containers are left
-alone is checked by the same two means.  What IS a theorem about the model: `Hexital.append`
+Input decoding (Candle / dict / list encodings, `HexModel/Core/Input.lean`, used by the driver for
+every `append` of the tie) is modelled: `encodings_agree` below says that a fresh candle handed
+over as a Candle, as a dict, or as a list with the timestamp first, last or absent, bare or in a
+list, decodes to the very same candles, so everything downstream is literally the same
+computation.  That the caller's containers are left alone is checked by the tie and the oracle.
+Further theorems about the model: `Hexital.append`
 delivers the very same candles to the manager of every timeframe, and feeding them changes no
 manager's configuration.  Status: partial by nature (DESIGN.md, C19).
 -/
@@ -110,5 +114,64 @@ theorem append_keeps_cfg (m m' : Manager F) (new : List (Candle F)) (h : m.appen
 /-- an empty append is a no-op on the manager (the code returns before `_tasks`) -/
 theorem empty_append_noop (m : Manager F) : m.append [] = .ok m := by
   simp [Manager.append]
+
+/-! ### input encodings -/
+
+/-- a candle as the caller constructs it: no readings, no tag, no clean values -/
+def Fresh (c : Candle F) : Prop := c.inds = [] ∧ c.subs = [] ∧ c.tag = false ∧ c.clean = none
+
+theorem fromDict_encodeDict (c : Candle F) (hf : Fresh c) : Candle.fromDict (encodeDict c) = c := by
+  obtain ⟨o, h, l, cl, v, ts, inds, subs, tag, clean⟩ := c
+  obtain ⟨h1, h2, h3, h4⟩ := hf
+  simp only at h1 h2 h3 h4
+  subst h1 h2 h3 h4
+  cases ts <;> simp [Candle.fromDict, encodeDict, dictGet, dlookup, Cell.asNum]
+
+theorem fromList_encodeList (b : Bool) (c : Candle F) (hf : Fresh c) :
+    Candle.fromList (encodeList b c) = .ok c := by
+  obtain ⟨o, h, l, cl, v, ts, inds, subs, tag, clean⟩ := c
+  obtain ⟨h1, h2, h3, h4⟩ := hf
+  simp only at h1 h2 h3 h4
+  subst h1 h2 h3 h4
+  cases ts <;> cases b <;> simp [Candle.fromList, encodeList, Cell.asNum]
+
+theorem mapM_fromList_encodeList (b : Bool) (cs : List (Candle F)) (hf : ∀ c ∈ cs, Fresh c) :
+    (cs.map (encodeList b)).mapM Candle.fromList = .ok cs := by
+  induction cs with
+  | nil => rfl
+  | cons c cs ih =>
+    have h1 := fromList_encodeList b c (hf c (List.mem_cons_self ..))
+    have h2 := ih (fun x hx => hf x (List.mem_cons_of_mem _ hx))
+    simp only [List.map_cons, List.mapM_cons, h1, h2, bind, Except.bind, pure, Except.pure]
+
+/-- C19 (second clause): every encoding of the same fresh candles decodes to the same candles.
+`append` of a manager, an indicator or a Hexital is `decodeInput` followed by the append of the
+decoded candles, so the results are identical whatever the encoding. -/
+theorem encodings_agree (cs : List (Candle F)) (hf : ∀ c ∈ cs, Fresh c) (b : Bool) :
+    decodeInput (.candles cs) = .ok cs ∧
+    decodeInput (.dicts (cs.map encodeDict)) = .ok cs ∧
+    decodeInput (.lists (cs.map (encodeList b))) = .ok cs := by
+  refine ⟨rfl, ?_, mapM_fromList_encodeList b cs hf⟩
+  simp only [decodeInput, List.map_map]
+  congr 1
+  conv => rhs; rw [← List.map_id cs]
+  exact List.map_congr_left (fun c hc => fromDict_encodeDict c (hf c hc))
+
+/-- ... and a single candle may be handed over bare -/
+theorem encodings_agree_single (c : Candle F) (hf : Fresh c) (b : Bool) :
+    decodeInput (.candle c) = .ok [c] ∧
+    decodeInput (.dict (encodeDict c)) = .ok [c] ∧
+    decodeInput (.list (encodeList b c)) = .ok [c] := by
+  refine ⟨rfl, ?_, ?_⟩
+  · simp only [decodeInput, fromDict_encodeDict c hf]
+  · simp only [decodeInput, fromList_encodeList b c hf, bind, Except.bind, pure, Except.pure]
+
+/-- the list form is position-sensitive: a timestamp anywhere but first or last is NOT accepted as
+one (non-vacuity of the first/last distinction; `decide` on a concrete list) -/
+example : (Candle.fromList (F := Int) [.num (.int 1), .num (.int 2), .num (.int 3), .num (.int 4), .num (.int 5)]).toOption.map (·.ts)
+    = some none := by decide
+
+example : Fresh ({ o := .int 1, h := .int 2, l := .int 0, c := .int 1, v := .int 7, ts := some 60 } : Candle Int) := by
+  simp [Fresh]
 
 end Hex.C19
